@@ -14,20 +14,22 @@ struct boom { int at; };
 struct Elem
 {
     static long constructed, destroyed, throw_at, seq; static std::vector<long> live_ids, dtor_ids; static long double_destroy;
+    static std::size_t blk_lo, blk_hi; static long outside;   // the object's block while a case runs: elements built in upstream memory must lie inside it
     long id;
+    void where() { auto& U = verif::up(); if (U.inside(this)) { std::size_t o = U.off(this); bool ok = false; for (auto& b : U.blocks) if (b.live && b.off <= o && o + sizeof(Elem) <= b.off + b.size) { ok = true; break; } if (!ok) ++outside; } }
     static void maybe() { if (seq++ == throw_at) throw boom{int(seq - 1)}; }
-    Elem() { maybe(); id = ++constructed; live_ids.push_back(id); }
-    Elem(const Elem&) { maybe(); id = ++constructed; live_ids.push_back(id); }
-    Elem(Elem&&) { maybe(); id = ++constructed; live_ids.push_back(id); }
+    Elem() { maybe(); where(); id = ++constructed; live_ids.push_back(id); }
+    Elem(const Elem&) { maybe(); where(); id = ++constructed; live_ids.push_back(id); }
+    Elem(Elem&&) { maybe(); where(); id = ++constructed; live_ids.push_back(id); }
     ~Elem()
     {
         ++destroyed; dtor_ids.push_back(id);
         auto it = std::find(live_ids.begin(), live_ids.end(), id);
         if (it == live_ids.end()) ++double_destroy; else live_ids.erase(it);
     }
-    static void reset_counters(long t) { constructed = destroyed = seq = double_destroy = 0; throw_at = t; live_ids.clear(); dtor_ids.clear(); }
+    static void reset_counters(long t) { constructed = destroyed = seq = double_destroy = 0; outside = 0; throw_at = t; live_ids.clear(); dtor_ids.clear(); }
 };
-long Elem::constructed, Elem::destroyed, Elem::throw_at = -1, Elem::seq, Elem::double_destroy; std::vector<long> Elem::live_ids, Elem::dtor_ids;
+long Elem::constructed, Elem::destroyed, Elem::throw_at = -1, Elem::seq, Elem::double_destroy, Elem::outside; std::size_t Elem::blk_lo, Elem::blk_hi; std::vector<long> Elem::live_ids, Elem::dtor_ids;
 struct alignas(16) Blob16 { char c[16]; };
 
 struct cfg_t { std::size_t nc, na, nb; std::vector<std::pair<std::size_t, std::size_t>> raw; std::string* log; long retry_n = -1, retry_k = -1; };
@@ -146,10 +148,23 @@ static void run_case(std::size_t cap, long throw_at, const std::string& post, st
             else if (post == "reset") { p.reset(); log += " reset |" + U.take() + " |"; }
             else if (post == "assignnull") { p = nullptr; log += " reset |" + U.take() + " |"; }
             else if (post == "swap") { joint_ptr<T, up_alloc> q(leaf); swap(p, q); log += " swapped |" + U.take() + " |"; }
+            else if (post == "moveassign2" || post == "swap2" || post == "movector2")
+            {   // a second allocator object: the block must go back to the allocator object it came from
+                up_alloc leaf2; leaf2.tag = 1;
+                {
+                    joint_ptr<T, up_alloc> q(leaf2);
+                    if (post == "moveassign2") q = std::move(p);
+                    else if (post == "swap2") swap(p, q);
+                    else { joint_ptr<T, up_alloc> r(std::move(p)); q = std::move(r); }
+                    bool ok = q.get() != nullptr && &q.get_allocator() == &leaf;
+                    log += ok ? " owner=first" : " owner=WRONG";
+                }
+                log += " moved2 |" + U.take() + " |";
+            }
         }
     }
     log += " end |" + U.take() + " |";
-    std::snprintf(buf, sizeof buf, " constructed=%ld destroyed=%ld double=%ld live=%zu", Elem::constructed, Elem::destroyed, Elem::double_destroy, Elem::live_ids.size());
+    std::snprintf(buf, sizeof buf, " constructed=%ld destroyed=%ld double=%ld live=%zu outside=%ld", Elem::constructed, Elem::destroyed, Elem::double_destroy, Elem::live_ids.size(), Elem::outside);
     log += buf;
     // the allocator must still be usable
     try { void* q = leaf.allocate_node(8, 8); leaf.deallocate_node(q, 8, 8); U.take(); log += " usable=1"; } catch (...) { log += " usable=0"; }
